@@ -10,6 +10,7 @@ is index arithmetic `(r1 * R2 + r2, c1 * C2 + c2) ↦ v1 * v2`; vectors are `Lis
 Import-free.
 -/
 import OFV.Model.Symbolic
+import OFV.Generated.C06
 
 namespace OFV
 namespace Model
@@ -39,16 +40,13 @@ deriving Repr, Inhabited
 /-- `scipy.sparse.identity(m)` -/
 def identity (m : Nat) : Mat := ⟨m, m, (List.range m).map fun i => (i, i, 1)⟩
 
-/-- `pauli_matrix_map` (1 = X, 2 = Y, 3 = Z) -/
-def pauliMat : Nat → Mat
-  | 1 => ⟨2, 2, [(0, 1, 1), (1, 0, 1)]⟩
-  | 2 => ⟨2, 2, [(0, 1, -GQ.I), (1, 0, GQ.I)]⟩
-  | 3 => ⟨2, 2, [(0, 0, 1), (1, 1, -1)]⟩
-  | _ => identity 2
+/-- `pauli_matrix_map` (1 = X, 2 = Y, 3 = Z, anything else = I): the entries are re-extracted
+from the live source on every run (`OFV.Generated.C06`) -/
+def pauliMat (p : Nat) : Mat := ⟨2, 2, Generated.C06.pauliEntries p⟩
 
-/-- `q_raise_csc = (X - iY)/2`, `q_lower_csc = (X + iY)/2` -/
-def qRaise : Mat := ⟨2, 2, [(1, 0, 1)]⟩
-def qLower : Mat := ⟨2, 2, [(0, 1, 1)]⟩
+/-- `q_raise_csc = (X - iY)/2`, `q_lower_csc = (X + iY)/2` (extracted) -/
+def qRaise : Mat := ⟨2, 2, Generated.C06.qRaiseEntries⟩
+def qLower : Mat := ⟨2, 2, Generated.C06.qLowerEntries⟩
 
 /-- a Python scalar as the first Kronecker factor -/
 def scalarMat (c : GQ) : Mat := ⟨1, 1, if c = 0 then [] else [(0, 0, c)]⟩
